@@ -28,8 +28,22 @@ pub fn units(id: &str, tier: &str) -> Option<Vec<Unit>> {
     Some(match id {
         "C01" => { let mut v = seqprops::c01(thorough); v.push(schedprops::many_subscriptions_unit(thorough)); v.push(c15::limits_unit(thorough)); v.push(seqprops::deadline_walk(thorough)); v.push(seqprops::big_batch_expiry_race(thorough)); v.extend(seqprops::core_units(thorough)); v.extend(schedprops::c01_sched(thorough)); v.push(schedprops::recreate_unit(thorough)); v }
         "C02" => { let mut v = seqprops::c02(thorough); v.extend(seqprops::core_units(thorough)); v.extend(schedprops::c02_sched(thorough)); v.push(c03::abandoned_pull_ack_unit(thorough)); v.push(schedprops::ack_at_deadline_unit(thorough)); v }
-        "C03" => { let mut v = c03::units(thorough); v.extend(seqprops::core_units(thorough)); v.extend(seqprops::stream_units(thorough)); v.push(seqprops::reincarnation_unit(thorough)); v }
-        "C04" => { let mut v = seqprops::c04(thorough); v.extend(seqprops::core_units(thorough)); v }
+        "C03" => {
+            let mut v = c03::units(thorough);
+            v.extend(seqprops::core_units(thorough));
+            v.extend(seqprops::stream_units(thorough));
+            v.push(seqprops::reincarnation_unit(thorough));
+            // a push dispatch holds its lease while the endpoint is slow (shared with C14)
+            share(&mut v, c14::units(thorough).into_iter().filter(|u| u.name == "fault/slow-endpoint" || u.name == "fault/long-deadline").collect());
+            v
+        }
+        "C04" => {
+            let mut v = seqprops::c04(thorough);
+            v.extend(seqprops::core_units(thorough));
+            // what an abandoned consumer leaves behind must not cut another consumer's lease short (shared with C02 / C03)
+            share(&mut v, c03::units(thorough).into_iter().filter(|u| u.name.starts_with("crash/abandoned-pull")).collect());
+            v
+        }
         "C05" => { let mut v = seqprops::c05(thorough); v.extend(seqprops::core_units(thorough)); v.push(schedprops::ack_at_deadline_unit(thorough)); v.push(c03::stream_control_order_unit(thorough)); v }
         "C06" => {
             let mut v = c06::units(thorough);
@@ -39,7 +53,14 @@ pub fn units(id: &str, tier: &str) -> Option<Vec<Unit>> {
             share(&mut v, c16::units(thorough).into_iter().filter(|u| u.name == "crash/next-to-a-waiting-consumer").collect());
             v
         }
-        "C07" => { let mut v = c07::units(thorough); v.push(c15::blocking_unit(thorough)); share(&mut v, c12::units(thorough)); v }
+        "C07" => {
+            let mut v = c07::units(thorough);
+            v.push(c15::blocking_unit(thorough));
+            share(&mut v, c12::units(thorough));
+            // listings and deletions racing each other terminate (shared with C11)
+            share(&mut v, schedprops::c11_sched(thorough).into_iter().filter(|u| u.name.contains("list")).collect());
+            v
+        }
         "C08" => { let mut v = seqprops::c08(thorough); v.extend(schedprops::c08_sched(thorough)); v }
         "C09" => c09::units(thorough),
         "C10" => { let mut v = seqprops::c10(thorough); v.extend(schedprops::c10_sched(thorough)); share(&mut v, schedprops::c11_sched(thorough)); v }
